@@ -116,6 +116,38 @@ def module_value(fi, e):
     return None
 
 
+def const_rows(fi, e):
+    """The rows if e is (a module- or class-level name for) a tuple/list of tuples, else None."""
+    v = module_value(fi, e) if isinstance(e, ast.Name) else e
+    if isinstance(e, ast.Attribute) and isinstance(e.value, ast.Name) and e.value.id in ('self', 'cls') and fi.cls is not None:
+        v = fi.cls.attrs.get(e.attr)
+    if isinstance(v, (ast.Tuple, ast.List)) and v.elts and all(isinstance(x, (ast.Tuple, ast.List)) for x in v.elts):
+        return list(v.elts)
+    return None
+
+
+class _RowSimplify(ast.NodeTransformer):
+    """After a table row was substituted into a loop body: apply lambdas to their arguments, read `bool(x) is True/False`
+    as x / not x."""
+    def visit_Call(self, node):
+        self.generic_visit(node)
+        f = node.func
+        if isinstance(f, ast.Lambda) and not node.keywords and not f.args.vararg and not f.args.kwarg and not f.args.kwonlyargs \
+                and len(f.args.args) == len(node.args) and not any(isinstance(a, ast.Starred) for a in node.args):
+            return nf.subst(f.body, {p.arg: a for p, a in zip(f.args.args, node.args)})
+        return node
+
+    def visit_Compare(self, node):
+        self.generic_visit(node)
+        if len(node.ops) == 1 and isinstance(node.ops[0], (ast.Is, ast.Eq, ast.IsNot, ast.NotEq)) and isinstance(node.comparators[0], ast.Constant) \
+                and isinstance(node.comparators[0].value, bool) and isinstance(node.left, ast.Call) and isinstance(node.left.func, ast.Name) \
+                and node.left.func.id == 'bool' and len(node.left.args) == 1:
+            want = node.comparators[0].value == isinstance(node.ops[0], (ast.Is, ast.Eq))
+            inner = node.left.args[0]
+            return inner if want else ast.UnaryOp(op=ast.Not(), operand=inner)
+        return node
+
+
 def const_strings(fi, e):
     """List of strings if e is (a module-level name for) a tuple/list of string literals, else None."""
     v = module_value(fi, e) if isinstance(e, ast.Name) else e
@@ -308,6 +340,17 @@ def extract_pipeline(idx, fi, direct=False, depth=0, val=None):
                         for tok in toks:
                             steps.append(Step(guards, 'replace', (tok, b['_R'].value), body[0]))
                         continue
+                rows = const_rows(fi, s.iter)
+                if rows is not None and not s.orelse and not any(isinstance(x, (ast.Break, ast.Continue)) for x in ast.walk(s)):
+                    # an ordered table of rows (class / module constant): the body is read once per row, lambdas applied
+                    for row in rows:
+                        bnd = X._bind_target(s.target, row)
+                        if bnd is None:
+                            raise AnalysisError('row `%s` does not fit the loop target `%s`' % (short(row), short(s.target)))
+                        walk([_RowSimplify().visit(nf._Subst(bnd).visit(X.clone_stmt(x))) for x in s.body], guards)
+                        if state['returned']:
+                            return
+                    continue
                 raise AnalysisError('loop over the working string not recognised: for %s in %s' % (short(s.target), short(s.iter)))
             if isinstance(s, ast.While):
                 w = state['w']
@@ -1069,9 +1112,33 @@ def d5_call(ctx, idx):
     r = ctx.rule('D5.CALL', "__call__ passes '' for a missing expect exactly when accept_any or accept_nonempty is set and "
                  "delegates to ItemGrader.__call__", floor=2)
     with r:
-        fi = idx.func(SG + '.__call__')
-        if fi.params[:3] != ['self', 'expect', 'student_input']:
-            raise AnalysisError('__call__: signature changed: %s' % fi.params)
+        hook = None
+        if idx.has_func(SG + '.__call__'):
+            fi = idx.func(SG + '.__call__')
+            if fi.params[:3] != ['self', 'expect', 'student_input']:
+                raise AnalysisError('__call__: signature changed: %s' % fi.params)
+        else:
+            # no override: the inherited __call__ may hand `expect` to a hook first that StringGrader shadows
+            base = None
+            for cname in idx.cls(SG).mro[1:]:
+                if idx.has_func(cname + '.__call__'):
+                    base = idx.func(cname + '.__call__')
+                    break
+            if base is None or base.params[:3] != ['self', 'expect', 'student_input']:
+                raise AnalysisError('anchor vanished: neither StringGrader.__call__ nor an inherited __call__(self, expect, student_input)')
+            body = [s_ for s_ in base.node.body if not (isinstance(s_, ast.Expr) and isinstance(s_.value, ast.Constant))]
+            b = X.m(X.spat("expect = self._H(expect)"), body[0]) if body else None
+            hname = body[0].value.func.attr if body and isinstance(body[0], ast.Assign) and isinstance(body[0].value, ast.Call) \
+                and isinstance(body[0].value.func, ast.Attribute) and X.is_name(body[0].value.func.value, 'self') \
+                and len(body[0].value.args) == 1 and X.is_name(body[0].value.args[0], 'expect') and not body[0].value.keywords \
+                and len(body[0].targets) == 1 and X.is_name(body[0].targets[0], 'expect') else None
+            if hname is None or not idx.has_func(SG + '.' + hname):
+                raise AnalysisError('anchor vanished: StringGrader.__call__ not found and %s.__call__ does not start with a hook on `expect` '
+                                    'that StringGrader defines' % base.qualname)
+            fi = idx.func(SG + '.' + hname)
+            if fi.params[:2] != ['self', 'expect'] or len(fi.params) != 2:
+                raise AnalysisError('%s: signature changed: %s' % (hname, fi.params))
+            hook = hname
         paths = nf.decision_paths(fi.node.body)
 
         def atom(e):
@@ -1095,6 +1162,11 @@ def d5_call(ctx, idx):
                 raise AnalysisError('decision paths of __call__ are not exclusive')
             leaf = sel[0].leaf
             e = leaf.expr
+            if hook is not None:
+                if leaf.kind != 'ret' or e is None:
+                    raise AnalysisError('%s does not end in a return of the value for expect: %s' % (hook, leaf))
+                e = ast.Call(func=ast.Attribute(value=ast.Call(func=ast.Name(id='super', ctx=ast.Load()), args=[], keywords=[]), attr='__call__',
+                                                ctx=ast.Load()), args=[e, ast.Name(id='student_input', ctx=ast.Load())], keywords=[])
             if leaf.kind != 'ret' or not (isinstance(e, ast.Call) and nf.callee_name(e) == '__call__'
                                           and isinstance(e.func, ast.Attribute) and isinstance(e.func.value, ast.Call)
                                           and nf.callee_name(e.func.value) == 'super' and len(e.args) >= 2):
@@ -1178,7 +1250,11 @@ _W5R_TABLE = ("            msg = None\n            chars = len(student)\n       
 _W6_HELPERS = ('    def check_response(self, answer, student_input, **kwargs):\n', '    def check_pattern(self, answer, expect, student, accept_any):\n        """Returns the result for a student input that fails validation_pattern, else None"""\n        pattern = self.config[\'validation_pattern\']\n        if pattern is None:\n            return None\n\n        # The pattern must match the entire input (fullmatch, rather than\n        # appending "$", so that alternations like \'cat|dog\' are anchored too)\n        # If expect doesn\'t match the pattern, a student can never get this right\n        if not accept_any and re.fullmatch(pattern, expect) is None:\n            msg = "The provided answer \'{}\' does not match the validation pattern \'{}\'"\n            raise ConfigError(msg.format(answer[\'expect\'], pattern))\n        # Check to see if the student input matches the validation pattern\n        if re.fullmatch(pattern, student) is None:\n            return self.construct_message(self.config[\'invalid_msg\'],\n                                          self.config[\'explain_validation\'])\n        return None\n\n    def check_minimums(self, student, min_length):\n        """Returns the result for a student input that is too short, else None"""\n        minimums = [(len(student), min_length, \'characters\'),\n                    (len(student.split()), self.config[\'min_words\'], \'words\')]\n        shortfalls = [row for row in minimums if row[0] < row[1]]\n        if not shortfalls:\n            return None\n        # Give student feedback (word count is more important than character count)\n        count, minimum, unit = shortfalls[-1]\n        msg = (\'Your response is too short ({count}/{min} {unit})\'\n               ).format(count=count, min=minimum, unit=unit)\n        return self.construct_message(msg, self.config[\'explain_minimums\'])\n\n    def check_response(self, answer, student_input, **kwargs):\n')
 _W6_BODY = ('        # Apply the validation pattern\n        pattern = self.config[\'validation_pattern\']\n        if pattern is not None:\n            # The pattern must match the entire input (fullmatch, rather than\n            # appending "$", so that alternations like \'cat|dog\' are anchored too)\n            if not accept_any:\n                # Make sure that expect matches the pattern\n                # If it doesn\'t, a student can never get this right\n                if re.fullmatch(pattern, expect) is None:\n                    msg = "The provided answer \'{}\' does not match the validation pattern \'{}\'"\n                    raise ConfigError(msg.format(answer[\'expect\'], pattern))\n\n            # Check to see if the student input matches the validation pattern\n            if re.fullmatch(pattern, student) is None:\n                return self.construct_message(self.config[\'invalid_msg\'],\n                                              self.config[\'explain_validation\'])\n\n        # Perform the comparison\n        if not accept_any:\n            # Check for a match to expect\n            if student != expect:\n                return {\'ok\': False, \'grade_decimal\': 0, \'msg\': \'\'}\n        else:\n            # Check for the minimum length\n            msg = None\n            chars = len(student)\n            if chars < min_length:\n                msg = (\'Your response is too short ({chars}/{min} characters)\'\n                       ).format(chars=chars, min=min_length)\n\n            # Check for minimum word count (more important than character count)\n            words = len(student.split())\n            if words < self.config[\'min_words\']:\n                msg = (\'Your response is too short ({words}/{min} words)\'\n                       ).format(words=words, min=self.config[\'min_words\'])\n\n            # Give student feedback\n            if msg:\n                return self.construct_message(msg,\n                                              self.config[\'explain_minimums\'])\n\n', "        # Apply the validation pattern, then perform the comparison\n        refusal = self.check_pattern(answer, expect, %s, accept_any)\n        if refusal is None:\n            if accept_any:\n                refusal = self.check_minimums(student, min_length)\n            elif student != expect:\n                refusal = {'ok': False, 'grade_decimal': 0, 'msg': ''}\n        if refusal is not None:\n            return refusal\n\n")
 
+_W6R_STEPS = ('    def clean_input(self, input):\n', "    _CLEANING_STEPS = (\n        ('case_sensitive', False, lambda text: text.lower()),\n        ('strip', True, lambda text: text.@@STRIP@@()),\n        ('strip_all', True, lambda text: text.replace(' ', '')),\n        ('clean_spaces', True, lambda text: re.sub(r' +', ' ', text)),\n    )\n\n    def clean_input(self, input):\n")
+_W6R_LOOP = ("        # Apply case sensitivity\n        if not self.config['case_sensitive']:\n            cleaned = cleaned.lower()\n\n        # Apply strip, strip_all and clean_spaces\n        if self.config['strip']:\n            cleaned = cleaned.strip()\n        if self.config['strip_all']:\n            cleaned = cleaned.replace(' ', '')\n        if self.config['clean_spaces']:\n            cleaned = re.sub(r' +', ' ', cleaned)\n\n", '        for option, active_when, transform in self._CLEANING_STEPS:\n            if bool(self.config[option]) is active_when:\n                cleaned = transform(cleaned)\n\n')
+
 MUTANTS = [
+    Mutant('cleaning-table-strips-left-only', SGF, [(_W6R_STEPS[0], _W6R_STEPS[1].replace('@@STRIP@@', 'lstrip')), _W6R_LOOP], None, 'D1'),
     Mutant('minimums-helper-reports-first-shortfall', SGF, [(_W6_HELPERS[0], _W6_HELPERS[1].replace('shortfalls[-1]', 'shortfalls[0]')), (_W6_BODY[0], _W6_BODY[1] % 'student')], None, 'D34'),
     Mutant('check-pattern-given-uncleaned-submission', SGF, [_W6_HELPERS, (_W6_BODY[0], _W6_BODY[1] % 'student_input')], None, 'D2'),
     Mutant('minimums-table-compares-with-le', SGF, _W5R_TABLE[0], _W5R_TABLE[1].replace('count < minimum', 'count <= minimum'), 'D34'),
@@ -1230,6 +1306,7 @@ MUTANTS = [
 ]
 
 BENIGN = [
+    Benign('cleaning-steps-as-ordered-table', SGF, [(_W6R_STEPS[0], _W6R_STEPS[1].replace('@@STRIP@@', 'strip')), _W6R_LOOP], None),
     Benign('pattern-and-minimums-in-helpers', SGF, [_W6_HELPERS, (_W6_BODY[0], _W6_BODY[1] % 'student')], None),
     Benign('minimums-as-ordered-table', SGF, _W5R_TABLE[0], _W5R_TABLE[1]),
     Benign('pattern-test-in-helper', SGF, [_W5J_HELPER, (_W5J_BODY[0], _W5J_BODY[1] % 'student')], None),
